@@ -135,6 +135,11 @@ func (e *Engine) RunCheck(opt CheckOpts) *CheckResult {
 			}
 		}
 		ctx.Obls = keep
+		for _, o := range keep {
+			if known.match(opt.Prop, &Obligation{Name: o.Name, Path: o.Path, Label: o.Label}) != nil {
+				o.Quick = true
+			}
+		}
 		wg.Add(1)
 		go func(ctx *FnCtx) {
 			defer wg.Done()
